@@ -260,16 +260,26 @@ func (v *View) applyOwn(req any, got []*RecvMsg, rid uint32) {
 	case *hagallpb.EntityDeleteRequest:
 		v.dropEntity(q.EntityId)
 	case *hagallpb.EntityComponentAddRequest:
-		v.Components[CKey{q.EntityComponentTypeId, q.EntityId}] = string(q.Data)
+		// (an attachment to an entity the client has meanwhile been told is gone means nothing
+		// to it, exactly as for a broadcast)
+		if _, ok := v.Entities[q.EntityId]; ok {
+			v.Components[CKey{q.EntityComponentTypeId, q.EntityId}] = string(q.Data)
+		}
 	case *hagallpb.EntityComponentDeleteRequest:
 		delete(v.Components, CKey{q.EntityComponentTypeId, q.EntityId})
 	case *vikjapb.EntityActionRequest:
 		a := q.GetEntityAction()
+		if _, ok := v.Entities[a.GetEntityId()]; !ok {
+			return
+		}
 		if v.Actions[a.GetEntityId()] == nil {
 			v.Actions[a.GetEntityId()] = map[string]VAction{}
 		}
 		v.Actions[a.GetEntityId()][a.GetName()] = vaction(a)
 	case *odalpb.AssetInstanceAddRequest:
+		if _, ok := v.Entities[q.EntityId]; !ok {
+			return
+		}
 		if r := findByRID(got, rid, 202); r != nil {
 			v.Assets[q.EntityId] = VAsset{ID: r.Msg.(*odalpb.AssetInstanceAddResponse).AssetInstanceId, Asset: q.AssetId, Owner: v.PID, Entity: q.EntityId}
 		}
